@@ -162,7 +162,15 @@ def lemmas(seed=0):
     ]
     for name, hyps, goal in todo:
         t0 = time.time()
-        res = smt.prove(hyps, goal, timeout_ms=20000, seed=seed)
+        if '.canary.' in name:
+            sol = z3.Solver()
+            sol.set('timeout', 20000)
+            sol.add(*hyps)
+            sol.add(z3.Not(goal))
+            r = sol.check()
+            res = {'status': 'refuted' if r == z3.sat else ('proved' if r == z3.unsat else 'undecided'), 'backend': 'z3'}
+        else:
+            res = smt.prove(hyps, goal, timeout_ms=20000, seed=seed)
         st = res['status']
         if '.canary.' in name:
             st = {'refuted': 'proved', 'proved': 'refuted'}.get(st, 'undecided')     # a canary must be refutable
@@ -200,6 +208,7 @@ def install_env(threads):
         def wait_hook(eng2, c, obj, args, kwargs):
             items = args.items() if args.fixed_len() is not None else []
             tmo = items[0] if items else kwargs.get('timeout')
+            in_wait_for = getattr(getattr(eng2, 'cur_call_node', None), '_pyvc_in_wait_for', False)    # now: the generator resumes later
             is_conn = z3.is_true(z3.simplify(obj == CONN_EV))
             is_in = z3.is_true(z3.simplify(obj == IN_EV))
             if not (is_conn or is_in):
@@ -225,9 +234,10 @@ def install_env(threads):
                             c2.assume(z3.Implies(z3.Not(r), SAME(s, t)))      # closed throughout: no handler other than connect/final can have run (K)
                     else:
                         c2.assume(r == t.fi)
-                if tmo is None:
+                if tmo is None and in_wait_for:
+                    c2.notes.append(('untimed-wait', obj, r))       # asyncio.wait_for applies the timeout
+                elif tmo is None:
                     c2.assume(r)                  # wait() without a timeout returns only once the flag is set
-                    c2.notes.append(('untimed-wait', obj, r))
                 elif isinstance(tmo, S) and tmo.sort == 'V':
                     c2.assume(z3.Implies(tmo.t == NONE, r))
                 yield c2, S(r)
